@@ -18,7 +18,8 @@ fn compute_facts_hash(facts: &TypedFacts) -> u64 {
 
     for (key, value) in sorted_facts {
         key.hash(&mut hasher);
-        value.as_str().hash(&mut hasher);
+        // Debug form, not as_str(): Integer(25) and String("25") print alike but evaluate differently
+        format!("{:?}", value).hash(&mut hasher);
     }
 
     hasher.finish()
